@@ -58,7 +58,7 @@ def run(tier, seed):
     ok, info = prep(PROP)
     ob, dis = proof_gate(rep, PROP, ok, info)
     rng = random.Random(seed)
-    n = 400 if tier == "quick" else 1500
+    n = 400 if tier == "quick" else 4000
     nproc = 3 if tier == "quick" else 6
     jobs, plan = [], []
     for i in range(n):
